@@ -336,6 +336,15 @@ def parent_side(ex):
     def yielded(c):
         return c.ex.heap[c.env['__yielded__'].addr].seq
 
+    def iter_counter(fi):
+        # the local that counts the yielded values (incremented once per value), read off the AST so that a renaming is followed
+        import ast
+        for n in ast.walk(fi.node):
+            if isinstance(n, ast.AugAssign) and isinstance(n.op, ast.Add) and isinstance(n.target, ast.Name):
+                return n.target.id
+        return 'cnt'
+    CNT = iter_counter(repo.func(PWK + '.results_iter'))
+
     def prefix_inv(c):
         ex_ = c.ex
         q = c.env['resq']
@@ -343,7 +352,7 @@ def parent_side(ex):
         p = ex_.abs_classes['Queue'].get(ex_, q, 'ipos')
         y = yielded(c)
         k0 = c.env['k0'].e
-        cnt = c.env['cnt'].e
+        cnt = c.env[CNT].e
         mi = c.env['maxitems']
         bound = z3.BoolVal(True) if mi is NONE else cnt <= mi.e
         return z3.And(z3.Length(y) == cnt, p == p0 + cnt, cnt >= 0, p <= z3.Length(inq), bound,
@@ -371,7 +380,7 @@ def parent_side(ex):
         out.append((Contract(PWK + '.results_iter', lid='L4-iter', name='C05.L4-iter results_iter yields exactly the delivered results in order and stops only at the end of the stream',
                              params={'self': ('const', None), 'maxitems': ('const', None)}, self_class=PTW, setup=lambda ex_, env: None,
                              ensures=[iter_post], raises={}, raises_only=[],
-                             loops={0: Loop(invariant=[prefix_inv], modifies=['__yielded__', 'abs:Queue.ipos'], locals={'cnt': 'int'})},
+                             loops={0: Loop(invariant=[prefix_inv], modifies=['__yielded__', 'abs:Queue.ipos'], locals={CNT: 'int'})},
                              options={'symbolic_yield': True, 'recv_closed_check': False}), ('maxitems given' if mi else 'maxitems=None', ri_setup(mi))))
     return out
 
